@@ -6,6 +6,7 @@ import (
 	"strings"
 	"testing"
 
+	"verif/cs"
 	"verif/eng"
 	"verif/rec"
 	"verif/wv"
@@ -28,7 +29,10 @@ type c04Case struct {
 	K        int      `json:"k"`
 	Key      []string `json:"key"` // 16 cap entries + digest supplied at proving time
 	What     string   `json:"what"`
+	Backend  string   `json:"backend,omitempty"` // "r1cs": wrapper compiled with gnark's R1CS builder (commit checker) and solved
 }
+
+var c04Compiled = map[string]*cs.System{}
 
 func keyOf(in *wv.Inst) []*big.Int {
 	var k []*big.Int
@@ -64,6 +68,27 @@ func c04Run(c c04Case) (viol bool, desc string, res eng.Result, expectAccept boo
 		}
 		a.VerifierData.CircuitDigest = frontend.Variable(key[16])
 		tmpl, asg = tin.PlainTemplate(), a
+	}
+	if c.Backend != "" {
+		key := fmt.Sprintf("%s/%s/%d", c.Wrapper, c.Template, c.K)
+		sys := c04Compiled[key]
+		if sys == nil {
+			var err error
+			sys, err = cs.CompileCircuit(cs.R1CS, cs.MechCommit, tmpl)
+			if err != nil {
+				return true, "compile of the wrapper refused: " + err.Error(), res, expectAccept
+			}
+			c04Compiled[key] = sys
+		}
+		serr := sys.SolveCircuit(asg)
+		res.Outcome = eng.Reject
+		if serr == nil {
+			res.Outcome = eng.Accept
+		}
+		if (serr == nil) != expectAccept {
+			return true, fmt.Sprintf("%s wrapper built from %s and compiled to R1CS: solver says %v for key change %q, expected accept=%v", c.Wrapper, tin.Name(), serr, c.What, expectAccept), res, expectAccept
+		}
+		return false, "", res, expectAccept
 	}
 	res = eng.Run(tmpl, asg, eng.Options{Mode: eng.ModeNative})
 	got := res.Outcome == eng.Accept
@@ -135,7 +160,7 @@ func TestC04(t *testing.T) {
 			tk := keyOf(in)
 			item++
 			if rec.Mine(item) {
-				exec(t, c04Case{w.wrapper, w.base, w.base, k, strs(tk), "unchanged"}, "control/unchanged-key")
+				exec(t, c04Case{Wrapper: w.wrapper, Template: w.base, Proof: w.base, K: k, Key: strs(tk), What: "unchanged"}, "control/unchanged-key")
 			}
 			for i := 0; i < 17; i++ {
 				item++
@@ -151,7 +176,7 @@ func TestC04(t *testing.T) {
 				} else if sel[i] == 0 {
 					what, class = fmt.Sprintf("cap[%d]+1 (selected by no query)", i), "cap-entry-unselected"
 				}
-				exec(t, c04Case{w.wrapper, w.base, w.base, k, strs(key), what}, class)
+				exec(t, c04Case{Wrapper: w.wrapper, Template: w.base, Proof: w.base, K: k, Key: strs(key), What: what}, class)
 			}
 			other := "B1"
 			if w.base[0] == 'B' {
@@ -159,16 +184,34 @@ func TestC04(t *testing.T) {
 			}
 			item++
 			if rec.Mine(item) {
-				exec(t, c04Case{w.wrapper, w.base, w.base, k, strs(keyOf(wv.Load(other, k))), "key-of-" + other}, "other-circuit-key")
+				exec(t, c04Case{Wrapper: w.wrapper, Template: w.base, Proof: w.base, K: k, Key: strs(keyOf(wv.Load(other, k))), What: "key-of-" + other}, "other-circuit-key")
 			}
 			// a different proof of the same inner circuit under the right key must be accepted
 			same := map[string]string{"A1": "A2", "A2": "A1", "B1": "B2", "B2": "B3", "B3": "B1"}[w.base]
 			item++
 			if rec.Mine(item) {
-				exec(t, c04Case{w.wrapper, w.base, same, k, strs(tk), "unchanged"}, "control/other-proof-same-circuit")
+				exec(t, c04Case{Wrapper: w.wrapper, Template: w.base, Proof: same, K: k, Key: strs(tk), What: "unchanged"}, "control/other-proof-same-circuit")
 			}
 		}
 	}
+	// 1b. the deployed configuration: CircuitFixed compiled for Groth16 (R1CS, commit checker), one shard
+	if rec.Mine(5) {
+		in := wv.Load("A1", 1)
+		sel := in.SelectedCapSlots()
+		tk := keyOf(in)
+		exec(t, c04Case{Wrapper: "fixed", Template: "A1", Proof: "A1", K: 1, Key: strs(tk), What: "unchanged", Backend: "r1cs"}, "compiled-r1cs/control")
+		n := 0
+		for i := 0; i < 17 && n < 4; i++ {
+			if i < 16 && sel[i] != 0 {
+				continue
+			}
+			n++
+			key := append([]*big.Int{}, tk...)
+			key[i] = new(big.Int).Mod(new(big.Int).Add(tk[i], big.NewInt(1)), bigR)
+			exec(t, c04Case{Wrapper: "fixed", Template: "A1", Proof: "A1", K: 1, Key: strs(key), What: fmt.Sprintf("element %d +1 (unselected or digest)", i), Backend: "r1cs"}, "compiled-r1cs/unselected-entry")
+		}
+	}
+
 	// 2. generated: element x {+1, random, zero}, random keys
 	rapidCheck(t, "keys", tierN(260, 9000), func(rt *rapid.T) {
 		w := rapid.SampledFrom(wts).Draw(rt, "wrapper")
@@ -254,7 +297,7 @@ func TestC04(t *testing.T) {
 				what, class = fmt.Sprintf("cap[%d]:%s (selected by %d queries)", i, how, sel[i]), "cap-entry-selected"
 			}
 		}
-		exec(rt, c04Case{w.wrapper, w.base, w.base, k, strs(key), what}, class)
+		exec(rt, c04Case{Wrapper: w.wrapper, Template: w.base, Proof: w.base, K: k, Key: strs(key), What: what}, class)
 	})
 	r.Done()
 }
